@@ -116,10 +116,15 @@ Proof.
   - destruct (0 <? to_Z y); intros E; injection E as <-; reflexivity.
   - destruct (0 <? to_Z y); intros E; injection E as <-; reflexivity.
   - intros E; injection E as <-; reflexivity.
-  - destruct (0 <? to_Z y).
-    + intros E; injection E as <-. apply valid_fnorm.
-    + destruct (Z.pos mx ^ Z.abs (to_Z y)); try discriminate.
-      intros E; injection E as <-. apply valid_fdiv_fin.
+  - (* the candidate result [r] is valid; the exactness test only decides whether it is returned *)
+    match goal with |- match ?r with _ => _ end = Some z -> _ => assert (Hr : valid r); [|destruct r as [s0|s0| |s0 m0 e0] eqn:Er] end.
+    + destruct (0 <? to_Z y); [apply valid_fnorm|].
+      destruct (Z.pos mx ^ Z.abs (to_Z y)); try reflexivity. apply valid_fdiv_fin.
+    + discriminate.
+    + intros E; injection E as <-. reflexivity.
+    + discriminate.
+    + match goal with |- (if ?c then _ else _) = _ -> _ => destruct c end; [|discriminate].
+      intros E; injection E as <-. exact Hr.
 Qed.
 
 Lemma valid_ffmod a b : valid a -> valid b -> valid (ffmod a b).
